@@ -171,6 +171,14 @@ def correspond(prop, tier, seed, backends):
                 if l and not l.startswith("#"):
                     ops.append(("corpus", l))
         ops += prop.gen(w, rng, tier)
+        # the same operations once more in a seeded random order: state that survives from one call to the next
+        # (a cache in a `static`, a thread-local mode) makes the result depend on what ran before, and the
+        # generators emit their lines grouped by type and operation
+        if getattr(prop, "HISTORY", True) and len(ops) > 1:
+            sample = [(lab, l) for lab, l in ops if lab != "corpus"]
+            if len(sample) > 4000:
+                sample = [sample[rng.below(len(sample))] for _ in range(4000)]
+            ops += [("hist:" + lab.split(":")[0], l) for lab, l in rng.shuffle(sample)]
         if be == "dec":
             # amounts a `Decimal` cannot hold (coefficient outside i128, more than 18 fractional digits) are no
             # inputs of the implementation: a generator that scales a boundary amount may produce them
